@@ -75,8 +75,13 @@ def rule_local_histogram(ctx, f, rid):
         ctx.saw(b)
         r = peel(b.term_local(0))
         cl = b.calls_to(["LocalHistogram::clear", "LocalHistogramCore::clear"])
-        ok = len(cl) == 1 and peel(cl[0].args[0]) == r and count_range(b, [cl[0].bb]) == (1, 1) and r[0] == "agg" and r[2].endswith("LocalHistogram::LocalHistogram")
-        ok = ok and is_call(r[3][0], "Clone::clone") and peel(r[3][0]) == CORE
+        # the returned handle wraps ONE clone of self.core, and that very clone is cleared exactly once before the return
+        # (`LocalHistogram { core: self.core.clone() }.clear()` or `let mut c = self.core.borrow().clone(); c.clear(); RefCell::new(c)`)
+        clones = [x for x in subterms(r) if isinstance(x, tuple) and x and x[0] == "call" and is_call(x, "Clone::clone") and core_recv(x[2][0]) == CORE] if isinstance(r, tuple) else []
+        ok = len(cl) == 1 and count_range(b, [cl[0].bb]) == (1, 1) and isinstance(r, tuple) and r[0] == "agg" and r[2].endswith("LocalHistogram::LocalHistogram") and len(set(clones)) == 1
+        if ok:
+            recv = cl[0].args[0]
+            ok = clones[0] in list(subterms(recv)) or peel(recv) == r
         ctx.ob(rid, "LocalHistogram::clone|cleared", ok, "a cloned local histogram must be cleared before it is returned (otherwise its pending observations are flushed twice)", site=b.raw["span"]["at"])
         derived = [im for im in f.impls if im.get("trait") == "std::clone::Clone" and im["self"] == "prometheus::histogram::LocalHistogram" and im.get("exp")]
         ctx.ob(rid, "LocalHistogram::clone|not-derived", not derived, "Clone for LocalHistogram must be the hand-written clearing impl, not a derive")
